@@ -95,6 +95,7 @@ H0 == [rearmed |-> FALSE,     \* a started / finished join was set back to WAITI
        stopIgnored |-> FALSE, \* stop(ERROR) on a PAUSED execution returned without effect (KF-C11-1)
        paused |-> FALSE,      \* a pause was requested (operator or pause command)
        delayedRestart |-> FALSE, \* a _refresh_task_state job restarted a join that was DELAYED (wait-after / retry delay): KF-C08-14
+       idxTwice |-> FALSE,       \* a with-items index was started while its previous execution was still RUNNING (KF-C07-5 / -18)
        dupExisting |-> FALSE,    \* a start_task(first_run = False) was redelivered (KF-C06-1)
        reruns |-> 0,             \* accepted rerun / skip commands
        rerunT |-> {},            \* tasks the operator reran (a failed join that is rerun starts by the operator's decision)
@@ -272,8 +273,10 @@ CheckAffected(S, t) ==
   ELSE {[S EXCEPT !.ops = @ \o [i \in 1..Len(ap) |-> Op("sched_refresh", ap[i])]] : ap \in AnyPerm(Affected(t, S.tk))}
 CompleteAndCheck(S, t, s) == UNION {CheckAffected(S1, t) : S1 \in Complete(S, t, s)}
 \* RegularTask._schedule_actions: a new action execution and its run_action request
+\* (hist.idxTwice: an index is started while an execution of that index is still RUNNING - KF-C07-5 / KF-C07-18)
 StartOne(S, t, i) ==
-  [S EXCEPT !.ax[t] = Append(@, AxRec("RUNNING", i)), !.ops = Append(@, [Op("run_action", t) EXCEPT !.k = Len(S.ax[t]) + 1])]
+  [S EXCEPT !.hist.idxTwice = @ \/ \E k \in 1..Len(S.ax[t]) : S.ax[t][k].i = i /\ S.ax[t][k].s = "RUNNING" /\ IsItems(t),
+            !.ax[t] = Append(@, AxRec("RUNNING", i)), !.ops = Append(@, [Op("run_action", t) EXCEPT !.k = Len(S.ax[t]) + 1])]
 \* WithItemsTask._schedule_actions: the first time count and capacity are fixed; the next indexes (those not yet accepted or
 \* running, in order, as many as the capacity allows) get an action execution each; no index at all completes the task
 Busy(a) == a.a \/ a.s \in {"RUNNING", "IDLE"}
@@ -672,15 +675,15 @@ OnePerIndexM == \A x \in Names : (IsItems(x) /\ Pol(x).retry = 0 /\ hist.reruns 
                    \A k1, k2 \in 1..Len(ax[x]) : ax[x][k1].i = ax[x][k2].i => k1 = k2
 WithinLimitM == \A x \in Names : (IsItems(x) /\ tk[x].conc > 0 /\ ~KF_ItemsRestart) =>
                    Cardinality({k \in 1..Len(ax[x]) : ax[x][k].s = "RUNNING"}) <= tk[x].conc
-CompleteAfterAllM == \A x \in Names : (IsItems(x) /\ hist.reruns = 0 /\ tk[x].state \in {"SUCCESS", "ERROR"} /\ tk[x].wiCount >= 0 /\ ~KF_ItemsRestart /\ ~KF_Rearmed) =>
+CompleteAfterAllM == \A x \in Names : (IsItems(x) /\ hist.reruns = 0 /\ ~hist.idxTwice /\ tk[x].state \in {"SUCCESS", "ERROR"} /\ tk[x].wiCount >= 0 /\ ~KF_ItemsRestart /\ ~KF_Rearmed) =>
                         /\ \A k \in 1..Len(ax[x]) : ax[x][k].s # "RUNNING"
                         /\ (wf \notin Final \/ tk[x].state = "SUCCESS") => {ax[x][k].i : k \in {j \in 1..Len(ax[x]) : ax[x][j].a}} = 0..(Pol(x).items - 1)
                         /\ (wf \notin Final) => ((tk[x].state = "ERROR") <=> \E k \in 1..Len(ax[x]) : ax[x][k].a /\ ax[x][k].s = "ERROR")
 \* C08: at rest a task with a retry policy (and no timeout) ends in the state of its last attempt; no attempt after a success
-FinalIffLastM == Quiet => \A x \in Names : (Pol(x).retry > 0 /\ ~Pol(x).failOn /\ Pol(x).timeout = 0 /\ Done(tk[x].state) /\ ax[x] # <<>>
+FinalIffLastM == Quiet => \A x \in Names : (Pol(x).retry > 0 /\ ~IsItems(x) /\ ~Pol(x).failOn /\ Pol(x).timeout = 0 /\ Done(tk[x].state) /\ ax[x] # <<>>
                                                /\ ~KF_Rearmed /\ ~hist.delayedRestart /\ ~KF_DoubleStart /\ tk[x].state # "SKIPPED")
                                => ((tk[x].state = "SUCCESS") <=> (ax[x][Len(ax[x])].s = "SUCCESS"))
-StopAtFirstSuccessM == \A x \in Names : (Pol(x).retry > 0 /\ ~Pol(x).failOn /\ Pol(x).contOn = "none" /\ ~KF_Rearmed /\ ~hist.delayedRestart /\ ~KF_DoubleStart /\ ~hist.timeoutRetry)
+StopAtFirstSuccessM == \A x \in Names : (Pol(x).retry > 0 /\ ~IsItems(x) /\ ~Pol(x).failOn /\ Pol(x).contOn = "none" /\ ~KF_Rearmed /\ ~hist.delayedRestart /\ ~KF_DoubleStart /\ ~hist.timeoutRetry)
                           => \A k \in 1..Len(ax[x]) : ax[x][k].s = "SUCCESS" => k = Len(ax[x])
 \* C04 / C01 (reverse workflows): only tasks of the target's dependency closure are ever created, and only once everything they
 \* require has succeeded
